@@ -5,6 +5,7 @@ import (
 	"fmt"
 	"math"
 	"reflect"
+	"strconv"
 
 	"github.com/safing/portbase/log"
 )
@@ -132,6 +133,11 @@ func validateValue(option *Option, value interface{}) (*valueCache, *ValidationE
 				}
 			}
 		}
+		if v == nil {
+			// An empty list, not "no value": a nil slice would be saved as
+			// null and be rejected when the configuration is loaded again.
+			v = []string{}
+		}
 		validated = &valueCache{stringArrayVal: v}
 	case int, int8, int16, int32, int64, uint, uint8, uint16, uint32, float32, float64:
 		// uint64 is omitted, as it does not fit in a int64
@@ -140,7 +146,20 @@ func validateValue(option *Option, value interface{}) (*valueCache, *ValidationE
 		}
 		if option.compiledRegex != nil {
 			// we need to use %v here so we handle float and int correctly.
-			if !option.compiledRegex.MatchString(fmt.Sprintf("%v", v)) {
+			valueText := fmt.Sprintf("%v", v)
+			// Integers that were decoded from JSON arrive as floats: match
+			// them in their integer form (%v prints 30000000.0 as 3e+07).
+			switch f := value.(type) {
+			case float32:
+				if math.Remainder(float64(f), 1) == 0 {
+					valueText = strconv.FormatInt(int64(f), 10)
+				}
+			case float64:
+				if math.Remainder(f, 1) == 0 {
+					valueText = strconv.FormatInt(int64(f), 10)
+				}
+			}
+			if !option.compiledRegex.MatchString(valueText) {
 				return nil, invalid(option, "did not match validation regex")
 			}
 		}
